@@ -84,6 +84,7 @@ def items(tier, seed):
             its.append({"entry": "sized", "first": first, "optimize": opt, "tier": tier})
     its.append({"entry": "objopt", "tier": tier})
     its.append({"entry": "viaopt", "tier": tier})
+    its.append({"entry": "rawlabels", "tier": tier})
     return its
 
 
@@ -242,6 +243,71 @@ def run_viaopt(item, rec):
     rec.validated += 1
 
 
+RAW = [
+    # canonicalize=False: the caller's own labels reach the cache key
+    dict(inputs=((-1, 1), (1, -2)), output=(-1, -2), size={-1: 2, 1: 3, -2: 3}),
+    dict(inputs=((-1, 1), (1, -2)), output=(-2, -1), size={-1: 2, 1: 3, -2: 3}),  # hash(-1) == hash(-2) in CPython
+    dict(inputs=(("ab", "c"), ("c", "d")), output=(), size={"ab": 2, "c": 3, "d": 2}),
+    dict(inputs=(("a", "bc"), ("c", "d")), output=(), size={"a": 2, "bc": 3, "c": 3, "d": 2}),  # same concatenated spelling
+    dict(inputs=((1, 12), (12, 3)), output=(1, 3), size={1: 2, 12: 3, 3: 2}),
+    dict(inputs=((11, 2), (2, 3)), output=(11, 3), size={11: 2, 2: 3, 3: 2}),
+]
+
+
+def raw_reference(req, arrays):
+    labs = []
+    for t in req["inputs"]:
+        for x in t:
+            if x not in labs:
+                labs.append(x)
+    ch = {x: skel.LETTERS[i] for i, x in enumerate(labs)}
+    sin = tuple("".join(ch[x] for x in t) for t in req["inputs"])
+    return sin, "".join(ch[x] for x in req["output"]), {ch[x]: d for x, d in req["size"].items()}
+
+
+def run_rawlabels(item, rec):
+    import cotengra as ctg
+
+    I = importlib.import_module("cotengra.interface")
+    saved = I.__dict__.get("hash", None)
+    I.hash = structural
+    try:
+
+        def harness(ctx):
+            clear_all()
+            seq = []
+            for k in range(2 if item["tier"] == "quick" else 3):
+                ri = symx.choose(f"req{k}", len(RAW))
+                cache = bool(symx.choose(f"cache{k}", 2))
+                ep = ("array_contract", "array_contract_expression")[symx.choose(f"ep{k}", 2)]
+                seq.append([ri, int(cache), ep])
+                req = RAW[ri]
+                sin, sout, ssize = raw_reference(req, None)
+                arrays = symarr.sym_arrays(sin, ssize, prefix=f"r{k}x")
+                want = symarr.dense_einsum(sin, sout, ssize, arrays)
+                case = dict(entry="rawlabels", seq=[list(x) for x in seq])
+                if ep == "array_contract":
+                    got = ctg.array_contract(arrays, req["inputs"], req["output"], canonicalize=False, cache_expression=cache)
+                else:
+                    got = ctg.array_contract_expression(req["inputs"], req["output"], size_dict=dict(req["size"]), canonicalize=False, cache=cache)(*arrays)
+                got = symarr.as_obj_array(got)
+                bad = True if got.shape != symarr.as_obj_array(want).shape else symarr.diff_formula(got, want)
+                rec.refute(ctx, bad, f"call {k}: value with the caller's own labels (canonicalize=False)", lambda m, case=case: dict(case=case, call=k, signature=["C13r", str(seq)]))
+                if bad is True:
+                    return
+
+        out = symx.explore(harness, max_paths=30000, deadline_s=(60 if item["tier"] == "quick" else 600))
+        rec.add_explore(out)
+        rec.sample(dict(entry="canonicalize=False with negative-int / multi-character / multi-digit labels", sequences=out.paths))
+    finally:
+        if saved is None:
+            I.__dict__.pop("hash", None)
+        else:
+            I.hash = saved
+        clear_all()
+    rec.validated += 1
+
+
 def run_sized(item, rec):
     import cotengra as ctg
 
@@ -376,6 +442,8 @@ def run_item(item, rec):
         return run_objopt(item, rec)
     if item["entry"] == "viaopt":
         return run_viaopt(item, rec)
+    if item["entry"] == "rawlabels":
+        return run_rawlabels(item, rec)
     I = importlib.import_module("cotengra.interface")
     P = pool()
     ep, first, tier = item["entry"], item["first"], item["tier"]
@@ -477,6 +545,24 @@ def replay(v):
     """re-run the sequence on the real code (real hash), float arrays"""
     warnings.simplefilter("ignore")
     case = v["case"]
+    if case["entry"] == "rawlabels":
+        import cotengra as ctg
+
+        clear_all()
+        rng = np.random.default_rng(3)
+        for k, (ri, cache, ep) in enumerate(case["seq"]):
+            req = RAW[ri]
+            sin, sout, ssize = raw_reference(req, None)
+            arrs = [rng.uniform(0.5, 1.5, size=[ssize[c] for c in t]) for t in sin]
+            want = np.einsum(",".join(sin) + "->" + sout, *arrs)
+            if ep == "array_contract":
+                got = ctg.array_contract(arrs, req["inputs"], req["output"], canonicalize=False, cache_expression=bool(cache))
+            else:
+                got = ctg.array_contract_expression(req["inputs"], req["output"], size_dict=dict(req["size"]), canonicalize=False, cache=bool(cache))(*arrs)
+            if np.shape(got) != np.shape(want) or not np.allclose(got, want):
+                return True, (f"canonicalize=False, sequence {[[RAW[r]['inputs'], RAW[r]['output'], c, e] for r, c, e in case['seq']]}: call {k} received the cached answer of another contraction "
+                              f"(shape {np.shape(got)}, expected {np.shape(want)})")
+        return False, "every call got its own contraction"
     if case["entry"] == "viaopt":
         import cotengra as ctg
 
